@@ -22,6 +22,9 @@ Oracle (independent of the model), evaluated on the real nodes after every actio
       no CREATED is sent;
   O4  a destroy removes entries only if its signature verifies and the signer is the adjacent peer of that entry;
   O5  after the history every surviving circuit still carries a round trip end to end;
+  O7  a forged cell that is dropped before any handler runs leaves bytes_up/bytes_down/last_activity of every circuit and
+      exit socket unchanged;   O8  an extension completes only on the exit entry that requested it (id re-use);
+      identifiers guessed from public values must not be the pending identifier (3 hits per run = predictable);
   O6  a genuine cell handed over from a foreign source address is never delivered at an originator and never
       enables an exit socket (origin / neighbour check of on_data and exit_data).
 """
@@ -200,6 +203,18 @@ class World:
 
     def begin(self):
         self.step_sends, self.step_exit, self.step_orig = [], [], []
+        self.loop.advance(0.001)          # every action happens at its own instant: beat_heart() becomes visible
+
+    def accounting(self, i: int):
+        """Traffic counters and heartbeat of the entries that hold keys (circuits, exit sockets).  Relay entries are
+        left out: relays book every arriving cell before any check (and a backward relay cannot check anything)."""
+        o = self.ov(i)
+        d = {}
+        for cid, c in o.circuits.items():
+            d[("C", cid)] = (c.bytes_up, c.bytes_down, c.last_activity)
+        for cid, e in o.exit_sockets.items():
+            d[("E", cid)] = (e.bytes_up, e.bytes_down, e.last_activity)
+        return d
 
     def inject(self, i: int, src, data: bytes):
         try:
@@ -348,6 +363,9 @@ class History:
         self.hist: list[Pkt] = []         # every datagram ever sent (for splicing)
         self.cut_keys: set[bytes] = set()  # keys of entries removed by a destroy the harness signed for a neighbour
         self.force: dict = {}             # exhaustive sweep: fixed kind / target / source / destroy mode
+        self.known_ids: dict[int, set] = {}
+        self.freed: list[tuple[int, int]] = []      # (node, id) that was in use there and has been removed
+        self.ext_req: dict[int, dict] = {}
         self.failed = False
 
     # ---- helpers ---------------------------------------------------------------------------------------
@@ -355,6 +373,8 @@ class History:
         d = {"sc_seed": self.sc_seed, "step": self.stepno, "lines": self.lines[-12:], "sweep": self.do_sweep}
         if getattr(self, "opening", None):
             d["opening"] = self.opening
+        if getattr(self, "reuse", None):
+            d["reuse"] = self.reuse
         if extra:
             d.update(extra)
         return d
@@ -380,9 +400,46 @@ class History:
         self.ctx.case(casekey, nontrivial)
         self.ctx.count(f"action:{kind}")
         self.check_logs()
+        if node:
+            self.track_ids_and_extensions(node)
         self.stepno += 1
         if self.verbose:
             print(f"[{self.stepno - 1}] {line}\n      sends={sends} log={exp['log']}")
+
+    def track_ids_and_extensions(self, node: int):
+        """(a) remember ids that were in use at a node and are gone (id re-use over time is generated from them);
+        (b) O8: an extension (CreateRequestCache) may only complete on the exit entry that asked for it: the relay pair
+        that appears when the cache is consumed must carry the session keys that entry had when the EXTEND came in."""
+        w = self.w
+        o = w.ov(node)
+        now = set(o.circuits) | set(o.relay_from_to) | set(o.exit_sockets)
+        was = self.known_ids.get(node, set())
+        for cid in was - now:
+            self.freed.append((node, cid))
+        self.known_ids[node] = now
+        pending = {}
+        for k, cache in o.request_cache._identifiers.items():
+            if k.startswith("create:"):
+                pending[cache.number] = cache
+        mine = self.ext_req.setdefault(node, {})
+        for num, cache in pending.items():
+            if num not in mine:
+                ex = o.exit_sockets.get(cache.from_circuit_id)
+                mine[num] = (cache.from_circuit_id, cache.to_circuit_id, ex.hop.keys if ex is not None else None,
+                             ex.hop.peer.public_key.key_to_bin() if ex is not None else None)
+        for num in [n_ for n_ in mine if n_ not in pending]:
+            frm, to, keys, peer_kb = mine.pop(num)
+            r = o.relay_from_to.get(frm)
+            if r is not None and r.circuit_id == to and keys is not None:
+                back = o.relay_from_to.get(to)
+                if r.hop.keys is not keys or (back is not None and back.hop.peer.public_key.key_to_bin() != peer_kb):
+                    self.fail("TunnelCommunity.on_created:extension-completed-on-another-circuits-exit-entry",
+                              f"node {node}: the extension requested on exit entry {frm} (for peer "
+                              f"{w.key_idx.get(peer_kb)}) was completed on a different exit entry under the same id: the "
+                              f"new relay pair {frm}<->{to} uses the session keys of the later entry and routes back to peer "
+                              f"{w.key_idx.get(back.hop.peer.public_key.key_to_bin()) if back else '?'}", {"node": node})
+                else:
+                    self.ctx.count("extension:completed-on-requesting-entry")
 
     def role(self, node: int, cid: int) -> str:
         o = self.w.ov(node)
@@ -719,6 +776,9 @@ class History:
                 pool.append((i, cid, "E"))
         if want_roles:
             pool = [x for x in pool if x[2] in want_roles]
+        if self.freed and not want_roles and rng.random() < 0.12:
+            self.ctx.count("target:recently-freed-id")
+            return rng.choice(self.freed)
         if pool and rng.random() < 0.85:
             i, cid, _ = rng.choice(pool)
             return i, cid
@@ -779,12 +839,20 @@ class History:
         from ipv8.messaging.anonymization.payload import (CellPayload, CreatedPayload, CreatePayload, DataPayload,
                                                           DestroyPayload, ExtendPayload, PingPayload)
         kind = rng.choice(["junk", "junk", "splice", "splice", "pt_create", "pt_create", "pt_create", "pt_created",
-                           "pt_other", "clear", "destroy", "destroy", "destroy"])
+                           "pt_created_guess", "pt_other", "clear", "destroy", "destroy", "destroy"])
         kind = self.force.get("kind", kind)
         att = w.n + 1
         before_ids = {j: w.identity(j) for j in range(1, w.n + 1)}
-        if kind in ("junk", "splice", "pt_other", "pt_created", "clear"):
+        hit, guess_how = False, ""
+        if kind in ("junk", "splice", "pt_other", "pt_created", "pt_created_guess", "clear"):
             node, cid = self.pick_target()
+            if kind == "pt_created_guess" and "target" not in self.force:
+                pend = [(i, c) for i in range(1, w.n + 1) for c in w.ov(i).circuits
+                        if w.ov(i).request_cache.has("retry", c)]
+                pend += [(i, cache.from_circuit_id) for i in range(1, w.n + 1)
+                         for k, cache in w.ov(i).request_cache._identifiers.items() if k.startswith("create:")]
+                if pend and rng.random() < 0.8:
+                    node, cid = rng.choice(pend)
             src = self.pick_src(node)
             role = self.role(node, cid)
             before = w.snapshot(node)
@@ -828,6 +896,32 @@ class History:
                 body = bytes([pl.msg_id]) + ser.pack_serializable(pl)[4:]
                 cell = CellPayload(cid, body, True, re_)
                 line = f"fc {node} {w.aidx(src)} {cid} 1 {int(re_)} [] other:{pl.msg_id}"
+            elif kind == "pt_created_guess":
+                # an off-path third party knows circuit ids (cell headers) and what went over the wire in plaintext; it
+                # derives the identifier from those and may send a DH half of the wrong length
+                seen = [struct.unpack_from("!H", p.data, 30)[0] for p in self.hist
+                        if len(p.data) >= 32 and p.data[22] == 0 and p.data[27] and p.data[29] == 2]
+                cands = [("cid&0xffff", cid & 0xFFFF), ("cid>>16", (cid >> 16) & 0xFFFF), ("zero", 0)]
+                if seen:
+                    cands += [("last-seen", seen[-1]), ("last-seen+1", (seen[-1] + 1) & 0xFFFF)]
+                guess_how, ident = rng.choice(cands)
+                o = w.ov(node)
+                retry = o.request_cache.get("retry", cid)
+                # "last-seen" may be this very circuit's CREATE sniffed on the wire: that is the on-path case (C08), skip
+                mine = [struct.unpack_from("!H", p.data, 30)[0] for p in self.hist
+                        if len(p.data) >= 32 and p.data[22] == 0 and p.data[27] and p.data[29] == 2
+                        and struct.unpack_from("!I", p.data, 23)[0] in
+                        ([cid] + [c.to_circuit_id for k, c in o.request_cache._identifiers.items() if k.startswith("create:")])]
+                if guess_how.startswith("last-seen") and ident in mine:
+                    return
+                hit = bool(o.request_cache.has("create", ident) or (retry and retry.packet_identifier == ident))
+                malformed = rng.random() < 0.5
+                key = b"\x01" * rng.choice([0, 16, 31, 33]) if malformed else bytes(rng.getrandbits(8) for _ in range(32))
+                pl = CreatedPayload(cid, ident, key, b"\x07" * 32, b"")
+                body = bytes([pl.msg_id]) + w.ov(att).serializer.pack_serializable(pl)[4:]
+                cell = CellPayload(cid, body, True, re_)
+                line = f"fc {node} {w.aidx(src)} {cid} 1 {int(re_)} [] created:{ident + 1}:{0 if malformed else 1}:{att}:0"
+                self.ctx.count(f"identifier_guess:{guess_how}:{'pending' if retry else 'idle'}")
             else:
                 ident = rng.getrandbits(16)
                 o = w.ov(node)
@@ -837,10 +931,37 @@ class History:
                 pl = CreatedPayload(cid, ident, bytes(rng.getrandbits(8) for _ in range(32)), b"\x07" * 32, b"")
                 body = bytes([pl.msg_id]) + w.ov(att).serializer.pack_serializable(pl)[4:]
                 cell = CellPayload(cid, body, True, re_)
-                line = f"fc {node} {w.aidx(src)} {cid} 1 {int(re_)} [] created:{ident + 1}:0:{att}:0"
+                line = f"fc {node} {w.aidx(src)} {cid} 1 {int(re_)} [] created:{ident + 1}:1:{att}:0"
+            acct = w.accounting(node)
             w.begin()
             w.inject(node, src, cell.to_bin(w.prefix))
-            self.forged_noop_check(f"PythonCryptoEndpoint.process_cell:forged-{kind}",
+            if kind in ("junk", "splice", "clear", "pt_other") and not hit:
+                # O7: a cell that is dropped before it reaches any handler must not move the traffic counters or the
+                # heartbeat of a circuit / exit socket (they decide about inactivity and traffic-limit removal)
+                after_acct = w.accounting(node)
+                moved = sorted(k for k in acct if k in after_acct and after_acct[k] != acct[k])
+                if moved:
+                    self.fail("PythonCryptoEndpoint.process_cell:accounting-moved-by-dropped-cell",
+                              f"forged {kind} cell for id {cid} (role {role}) from {src} at node {node} was dropped but moved "
+                              f"bytes/last_activity of {moved}: {[(acct[k], after_acct[k]) for k in moved]}",
+                              {"node": node})
+                else:
+                    self.ctx.count("accounting:unchanged-after-dropped-cell")
+            if hit:
+                hits = self.ctx.extra.setdefault("identifier_guess_hits", [])
+                hits.append({"sc_seed": self.sc_seed, "step": self.stepno, "node": node, "cid": cid, "guess": guess_how,
+                             "circuit_removed": cid not in w.ov(node).circuits and "C" in role})
+                self.ctx.count("identifier_guess:hit:" + guess_how)
+                if len(hits) >= 3:
+                    self.fail("RequestCache.identifier:predictable-from-public-values",
+                              f"{len(hits)} of the identifiers guessed from public values ({guess_how}: circuit id bits / "
+                              f"identifiers seen in plaintext on the wire) were the pending identifier; a third-party "
+                              f"plaintext CREATED for circuit {cid} at node {node} passed the identifier check"
+                              + (" and, carrying a malformed key, removed the circuit" if hits[-1]["circuit_removed"] else ""),
+                              {"node": node, "hits": hits[-3:]})
+                self.refresh_bk()
+            else:
+              self.forged_noop_check(f"PythonCryptoEndpoint.process_cell:forged-{kind}",
                                    f"forged {kind} cell for id {cid} (role {role}) from {src} at node {node}",
                                    node, before_ids, before, allow_backward_relay_cid=cid,
                                    unkeyed=(role == "C0" and kind in ("junk", "splice", "clear")))
@@ -983,6 +1104,80 @@ class History:
             else:
                 self.act_gate(0)
             n += 1
+
+    def deliver_where(self, pred) -> bool:
+        w = self.w
+        for k, p in enumerate(w.flight):
+            if pred(w.header(p), p):
+                self.act_deliver(k)
+                return True
+        return False
+
+    def run_reuse(self, order: str, second: str):
+        """Small-scope scenario family "an id is used again while an extension of its previous owner is pending":
+        circuit X of node 1 runs 1 -> E(3) -> 4; E's CREATE to node 4 is held back; then, in the given order,
+          X  node 1 removes X and its destroy reaches E,
+          R  a second party asks E for a circuit under the SAME id (second = a real originator, node 2, or the outsider),
+          F  the held CREATE reaches node 4,   B  node 4's CREATED comes back to E (and what follows is delivered).
+        Afterwards every circuit that is READY must still work; O8 watches which exit entry the extension lands on."""
+        _random.seed(self.sc_seed)
+        self.w = World(4, self.rng)
+        w = self.w
+        try:
+            self.lines.append("reset 4")
+            self.expect.append({"sends": [], "tables": None, "log": [], "step": -1, "kind": "reset"})
+            peer2 = w.nodes[2].my_peer
+            flags2 = w.ov(1).candidates.pop(peer2, None)          # first hop of node 1 can only be node 3
+            key = self.act_open((1, 2, 4))
+            if flags2 is not None:
+                w.ov(1).candidates[peer2] = flags2
+            if key is None:
+                return
+            xid = key[1]
+            is_held = lambda h, p: h[1] == "cell" and h[3] == 1 and h[5] == 2 and w.addr_idx.get(p.dst) == 4   # noqa: E731
+            for _ in range(30):
+                if any(is_held(w.header(p), p) for p in w.flight):
+                    break
+                if not self.deliver_where(lambda h, p: not is_held(h, p)):
+                    break
+            if not any(is_held(w.header(p), p) for p in w.flight):
+                self.ctx.count("reuse:setup-incomplete")
+                return
+            for ev in order:
+                if self.failed:
+                    break
+                if ev == "X":
+                    if xid in w.ov(1).circuits:
+                        w.begin()
+                        self.circs[key]["destroyed"] = True
+                        w.call(w.ov(1).remove_circuit, xid, "harness", destroy=1)
+                        self.refresh_bk()
+                        self.record(f"rmC 1 {xid}", 1, "legit-remove-C", True, ("rm", "C"))
+                    self.deliver_where(lambda h, p: h[1] == "destroy" and w.addr_idx.get(p.dst) == 3)
+                elif ev == "R":
+                    if second == "originator":
+                        w.ov(2)._generate_circuit_id = lambda: xid          # harness-side: node 2 happens to draw X
+                        k2 = self.act_open((2, 1, 3))
+                        del w.ov(2)._generate_circuit_id
+                        self.deliver_where(lambda h, p: h[1] == "cell" and h[2] == xid and h[5] == 2
+                                           and w.addr_idx.get(p.dst) == 3 and w.addr_idx.get(p.src) == 2)
+                        self.deliver_where(lambda h, p: h[1] == "cell" and h[2] == xid and h[5] == 3
+                                           and w.addr_idx.get(p.dst) == 2)
+                        _ = k2
+                    else:
+                        self.force = {"kind": "pt_create", "target": (3, xid), "src": w.addr(w.n + 1)}
+                        self.act_forge()
+                        self.force = {}
+                elif ev == "F":
+                    self.deliver_where(is_held)
+                elif ev == "B":
+                    self.deliver_where(lambda h, p: h[1] == "cell" and h[3] == 1 and h[5] == 3 and w.addr_idx.get(p.dst) == 3)
+                    self.deliver_where(lambda h, p: h[1] == "cell" and h[3] == 0 and w.addr_idx.get(p.dst) in (1, 2))
+            if not self.failed:
+                self.final_probe()
+            self.ctx.count(f"reuse:histories:{second}")
+        finally:
+            w.close()
 
     def run_opening(self, seq, hops: int):
         """Small-scope exhaustive scenario: two circuits of different originators end at the SAME exit node; `seq`
@@ -1321,16 +1516,39 @@ def run_openings(ctx: Ctx, use_model: bool):
                                               "exhaustive": ctx.thorough()}
 
 
+def reuse_orders():
+    from itertools import permutations
+    return ["".join(p) for p in permutations("XRFB") if p.index("F") < p.index("B")]
+
+
+def run_reuses(ctx: Ctx, use_model: bool):
+    n = 0
+    for second in ("originator", "outsider"):
+        for order in reuse_orders():
+            h = History(ctx, ctx.rng.getrandbits(48))
+            h.reuse = {"order": order, "second": second}
+            h.run_reuse(order, second)
+            n += 1
+            if use_model and not h.failed:
+                compare(ctx, h, ctx.driver().batch(h.lines))
+            fresh = [f for f in ctx.failures if not f["signature"].endswith("third-party-data-delivered-while-extending")]
+            if len(fresh) >= 3 or len(ctx.disagreements) >= 3:
+                return
+    ctx.extra["id_reuse_enumeration"] = {"orders": len(reuse_orders()), "second_party": 2, "histories": n}
+
+
 def run(ctx: Ctx):
     import logging
     logging.disable(logging.CRITICAL)
     if ctx.replay_input is not None:
         return replay(ctx, ctx.replay_input)
+    run_reuses(ctx, ctx.model_ok)
     run_openings(ctx, ctx.model_ok)
-    run_histories(ctx, ctx.scale(600, 5000), ctx.model_ok, sweeps=ctx.scale(2, 60))
+    run_histories(ctx, ctx.scale(500, 5000), ctx.model_ok, sweeps=ctx.scale(2, 60))
 
 
 def search(ctx: Ctx, reason: str):
+    run_reuses(ctx, False)
     run_openings(ctx, False)
     run_histories(ctx, 300, False)
 
@@ -1338,7 +1556,10 @@ def search(ctx: Ctx, reason: str):
 def replay(ctx: Ctx, rec: dict):
     r = rec.get("replay", rec)
     h = History(ctx, r["sc_seed"], stop_at=None, verbose=True, do_sweep=bool(r.get("sweep")))
-    if r.get("opening"):
+    if r.get("reuse"):
+        h.reuse = r["reuse"]
+        h.run_reuse(r["reuse"]["order"], r["reuse"]["second"])
+    elif r.get("opening"):
         h.opening = r["opening"]
         h.run_opening([tuple(x) for x in r["opening"]["seq"]], r["opening"]["hops"])
     else:
